@@ -267,7 +267,7 @@ Definition check_block (strict : bool) (f f' : func) (C : cert) (asz : Z -> Z) (
   && scan strict f C asz (cert_at C b) (body (nth_block f b)) (body (nth_block f' b)).
 
 Definition fwd_check_with (strict : bool) (f f' : func) (C : cert) : bool :=
-  Nat.eqb (List.length f) (List.length f') && null (cert_at C 0%N)
+  Nat.eqb (List.length f) (List.length f') && negb (null f) && null (cert_at C 0%N)
   && (let asz := asz_of f in forallb (fun b => check_block strict f f' C asz (N.of_nat b)) (seq 0 (List.length f))).
 
 (* ------------------------------------------------------------------ certificate inference (not trusted: `fwd_check_with`
